@@ -1402,6 +1402,47 @@ def _machine_is_default(ctx, m, w, h, label, what):
     return prove_same(ctx, want, got, False, label, what)
 
 
+def h_default_kernel(ctx):
+    """sa.place with the kernel it chooses itself (the compiled one where
+    installed), asked to place quantities the compiled kernel cannot take
+    (non-integer, or beyond a C int) and then an ordinary problem: whatever
+    the first call does, it leaves no trace in the process (the scan at the
+    end of the path) and the second call's result is that of a first call."""
+    import random as real_random
+    from rig.place_and_route import Machine, Cores, SDRAM
+    from rig.place_and_route.place import sa
+    from rig.netlist import Net
+    with guarded(ctx):
+        odd = ctx.pick(({Cores: 1, SDRAM: 0.5}, {Cores: 1, SDRAM: 2 ** 40}))
+        vs = ["a", "b", "c", "d"]
+
+        def problem(extra):
+            vr = {v: {Cores: 1, SDRAM: 1} for v in vs}
+            vr["a"] = dict(extra)
+            nets = [Net("a", ["b", "c"]), Net("c", ["d"])]
+            m = Machine(2, 2, chip_resources={Cores: 2, SDRAM: 2 ** 41})
+            return vr, nets, m
+
+        def run(extra, seed):
+            vr, nets, m = problem(extra)
+            try:
+                return sorted(sa.place(vr, nets, m, [], effort=0.1,
+                                       random=real_random.Random(seed)
+                                       ).items())
+            except Exception as e:
+                return type(e).__name__
+        first = run({Cores: 1, SDRAM: 1}, 3)
+        ctx.observe("reference", first)
+        r_odd = run(odd, 5)
+        ctx.observe("odd quantities", r_odd if isinstance(r_odd, str)
+                    else "placed")
+        again = run({Cores: 1, SDRAM: 1}, 3)
+        ctx.observe("again", again)
+        ctx.prove(again == first, "place-result-depends-on-history",
+                  (first, again))
+        ctx.witness("placed")
+
+
 def h_machine_defaults(ctx):
     from rig.place_and_route import Machine, Cores, SDRAM, SRAM
     from rig.links import Links
@@ -2063,6 +2104,9 @@ def units(tier, seed):
              dict(RS0), "tables", split=5)
 
     # ---------------- (b) objects ---------------------------------------
+    us.append(Unit("history sa.place default kernel after quantities it "
+                   "cannot take", h_default_kernel, {},
+                   witnesses=("placed",)))
     us.append(Unit("history Machine() defaults", h_machine_defaults, {},
                    witnesses=("mutated",)))
     for cut in ((0, 2, 4) if not thorough else (0, 1, 2, 3, 4, 5, 6)):
